@@ -84,6 +84,24 @@ func parFaultChild(cfg *Config) *hx.Stats {
 			notes = append(notes, fmt.Sprintf("parallel preload error %v differs from sequential %v", errPar, errSeq))
 		}
 		time.Sleep(30 * time.Millisecond)
+		// parallel preload with a ledger READ that fails: the error must come back (no hang, no leak
+		// of blocked workers), and be the one the sequential path reports
+		ledger.Seg[ids[round*3%40]] = append([]byte(nil), ledger.Seg[ids[(round*3+1)%40]]...)
+		ledger.ReadFail = map[atree.SlabID]bool{ids[(round*7+5)%40]: true}
+		seq2 := hx.NewStorage(ledger)
+		errSeq2 := seq2.BatchPreload(ids[(round*7+5)%40:(round*7+5)%40+1], 1)
+		par2 := hx.NewStorage(ledger)
+		done := make(chan error, 1)
+		go func() { done <- par2.BatchPreload(ids, 4+round) }()
+		select {
+		case errPar2 := <-done:
+			if errPar2 == nil || errSeq2 == nil || hx.ErrCategory(errPar2) != "External" {
+				notes = append(notes, fmt.Sprintf("parallel preload with a failing ledger read returned %v (sequential: %v)", errPar2, errSeq2))
+			}
+		case <-time.After(3 * time.Second):
+			notes = append(notes, "parallel preload with a failing ledger read did not return within 3 s")
+		}
+		ledger.ReadFail = map[atree.SlabID]bool{}
 	}
 	fmt.Println("PARFAULT ok " + strings.Join(notes, "; "))
 	st.Programs = 1
@@ -127,6 +145,6 @@ func parFaultStream(cfg *Config) *hx.Stats {
 		}
 	}
 	st.Distinct = st.Programs + 1
-	st.Samples = append(st.Samples, "child process: 120 slow-encoding slabs, FastCommit / NondeterministicFastCommit with 8 workers and a ledger fault at call 0..3; BatchPreload of 40 registers (one corrupted) with 8 workers and ledger jitter vs the sequential error")
+	st.Samples = append(st.Samples, "child process: 120 slow-encoding slabs, FastCommit / NondeterministicFastCommit with 8 workers and a ledger fault at call 0..3; BatchPreload of 40 registers (one corrupted; one whose ledger read fails, under a watchdog) with several workers and ledger jitter vs the sequential error")
 	return st
 }
